@@ -1,6 +1,8 @@
 //! C01 (span), C02 (groups), C15 (conditionals): reference sweeps.
 
 use crate::common::*;
+use crate::counts;
+use crate::wide;
 use crate::refsweep::{self, RefCfg};
 use crate::spaces::{self, Space};
 use frmc_core::ast::{Facts, Node};
@@ -108,13 +110,18 @@ pub fn run_c01(cx: &Ctx) -> i32 {
     t.count("tall_sweep_programs", t3.programs);
     t.count("tall_sweep_evaluations", t3.evaluations);
     t.merge(t3);
+    let (dense, top) = if cx.quick() { (1100, 70_000) } else { (4200, 300_000) };
+    let t4 = counts::sweep(counts::Which::C01, dense, top);
+    t.count("large_count_sweep_programs", t4.programs);
+    t.count("large_count_sweep_evaluations", t4.evaluations);
+    t.merge(t4);
     finish(
         cx,
         t,
         Finish {
             rule: format!(
-                "every pattern of {} (scoped references) x every text over {:?} up to length {} x every char-boundary start offset, plus a second sweep of a smaller space (node bound 3 quick / 4 thorough, with {{3}}, {{0,2}}?, {{3,}} repeats, and the contexts) over all texts over [a,b] up to length 5 quick / 6 thorough, and a third 'tall' sweep of every context x one-node fillers over long regular texts (a^n, a^n b, b a^n, (ab)^n, a^n e-acute for n up to 32 quick / 64 thorough) from offset 0; captures_from_pos (and is_match at offset 0) on the real crate versus the reference matcher; non-trivial = the pattern is compiled to a VM program and the reference finds a match or has to try more than one start position; cases in which the reference takes an empty optional iteration of an unbounded repeat (class F1) are outside its domain and skipped (counted)",
-                space.describe(), alphabet, max_len
+                "every pattern of {} (scoped references) x every text over {:?} up to length {} x every char-boundary start offset, plus a second sweep of a smaller space (node bound 3 quick / 4 thorough, with {{3}}, {{0,2}}?, {{3,}} repeats, and the contexts) over all texts over [a,b] up to length 5 quick / 6 thorough, and a third 'tall' sweep of every context x one-node fillers over long regular texts (a^n, a^n b, b a^n, (ab)^n, a^n e-acute for n up to 32 quick / 64 thorough) from offset 0; captures_from_pos (and is_match at offset 0) on the real crate versus the reference matcher; non-trivial = the pattern is compiled to a VM program and the reference finds a match or has to try more than one start position; cases in which the reference takes an empty optional iteration of an unbounded repeat (class F1) are outside its domain and skipped (counted); plus a {}",
+                space.describe(), alphabet, max_len, counts::describe(counts::Which::C01, dense, top)
             ),
             exhaustive: true,
             bounds: jobj! {"space" => space.describe(), "alphabet" => alphabet.iter().map(|c| c.to_string()).collect::<Vec<_>>(), "max_text_len" => max_len},
@@ -145,13 +152,18 @@ pub fn run_c02(cx: &Ctx) -> i32 {
     t.count("tall_sweep_programs", t3.programs);
     t.count("tall_sweep_evaluations", t3.evaluations);
     t.merge(t3);
+    let wsp = wide::wide_space(cx.quick());
+    let t4 = wide::sweep(&wsp, wide::Mode::Groups, 3);
+    t.count("wide_sweep_programs", t4.programs);
+    t.count("wide_sweep_evaluations", t4.evaluations);
+    t.merge(t4);
     finish(
         cx,
         t,
         Finish {
             rule: format!(
-                "every pattern with at least one capture group of {} (scoped references) x every text over {:?} up to length {} x every offset (plus the long-text sweep of C01); whenever engine and reference both match with the same overall span, every group i>=1 and the number of groups are compared; span divergences are left to C01; non-trivial as in C01",
-                space.describe(), alphabet, max_len
+                "every pattern with at least one capture group of {} (scoped references) x every text over {:?} up to length {} x every offset (plus the long-text sweep of C01); whenever engine and reference both match with the same overall span, every group i>=1 and the number of groups are compared; span divergences are left to C01; non-trivial as in C01; plus the tall sweep of C01 with groups compared, and a {}",
+                space.describe(), alphabet, max_len, wide::describe(&wsp, 3)
             ),
             exhaustive: true,
             bounds: jobj! {"space" => space.describe(), "max_text_len" => max_len},
